@@ -1065,6 +1065,15 @@ Example C13_commit_overflow_finding :
                  /\ is_ok (commit_entries false (dirty_entries k')) = true.
 Proof. vm_compute. split; [reflexivity|]. eexists. split; [reflexivity|]. repeat split; reflexivity. Qed.
 
+(* end to end: commit_consumed of a consumer (with a group) in that state, debug build *)
+Example C13_commit_overflow_finding_e2e :
+  let k := {| k_client := ex_client_md; k_group := tag "g"; k_fallback := FbLatest; k_retry_limit := 0;
+              k_assign := [(tag "tp", [0])]; k_fetch := [((0, 0), (6, 1000))]; k_retry := [];
+              k_consumed := [((0, 0), (i64_max, true))] |} in
+  fst (commit_consumed k (ex_st [] ex_client_md true)) = Panic overflow_tag
+  /\ trace (snd (commit_consumed k (ex_st [] ex_client_md true))) = [].
+Proof. vm_compute. split; reflexivity. Qed.
+
 Print Assumptions C13_metadata_update_total.
 Print Assumptions C13_frame_size.
 Print Assumptions C13_frame_size_negative.
